@@ -1,0 +1,281 @@
+//! Verification hooks. Compiled only with `--cfg gothenburgbitfactory_taskchampion_verif`;
+//! ordinary builds never see this file.
+//!
+//! Provides an in-memory object store implementing [`Service`] whose every request (and every
+//! page of a listing) first passes through a caller-supplied [`Gate`], constructors for a
+//! [`CloudServer`] over it, and direct access to cleanup, the random draws and the cryptor.
+
+use super::*;
+use crate::server::cloud::iter::AsyncObjectIterator;
+use std::collections::BTreeMap;
+use std::sync::{Arc, Mutex};
+
+/// What the gate decides for a request.
+#[derive(Clone, Copy, Debug, PartialEq, Eq)]
+pub enum GateDecision {
+    Proceed,
+    /// fail without performing the request
+    FailBefore,
+    /// perform the request, then report failure
+    FailAfter,
+}
+
+/// Caller-supplied control over every object-store request.
+#[async_trait]
+pub trait Gate: Send {
+    /// Called before each request and before each page of a listing; may suspend.
+    async fn before(&mut self, op: &'static str, name: &str) -> GateDecision;
+    /// Called synchronously after a request took effect; `changed` tells whether a
+    /// compare-and-swap replaced the value (true for all other requests).
+    fn after(&mut self, op: &'static str, name: &str, changed: bool);
+    /// Creation time (seconds since the epoch) given to an object created now.
+    fn now(&mut self) -> u64;
+    /// Order and page size in which a listing of `names` is delivered.
+    fn arrange_listing(&mut self, names: &mut Vec<String>) -> usize;
+}
+
+/// Object name -> (value, creation time). Shared with the caller, who may read and modify it.
+pub type Objects = Arc<Mutex<BTreeMap<String, (Vec<u8>, u64)>>>;
+
+pub struct MemService {
+    pub objects: Objects,
+    pub gate: Box<dyn Gate>,
+}
+
+fn injected(op: &str) -> Error {
+    Error::Server(format!("verif: injected object-store failure in {op}"))
+}
+
+struct MemIter<'a> {
+    svc: &'a mut MemService,
+    items: Vec<String>,
+    pos: usize,
+    page: usize,
+    prefix: String,
+    failed: bool,
+}
+
+#[async_trait]
+impl AsyncObjectIterator for MemIter<'_> {
+    async fn next(&mut self) -> Option<Result<ObjectInfo>> {
+        if self.failed {
+            return None;
+        }
+        loop {
+            if self.pos >= self.items.len() {
+                return None;
+            }
+            if self.pos % self.page == 0 {
+                // a new page is fetched from the store
+                match self.svc.gate.before("list-page", &self.prefix).await {
+                    GateDecision::Proceed => {}
+                    _ => {
+                        self.failed = true;
+                        return Some(Err(injected("list")));
+                    }
+                }
+            }
+            let name = self.items[self.pos].clone();
+            self.pos += 1;
+            // an object deleted since the listing started is simply not reported
+            let found = self.svc.objects.lock().unwrap().get(&name).map(|(_, c)| *c);
+            if let Some(creation) = found {
+                return Some(Ok(ObjectInfo { name, creation }));
+            }
+        }
+    }
+}
+
+#[async_trait]
+impl Service for MemService {
+    async fn put(&mut self, name: &str, value: &[u8]) -> Result<()> {
+        crate::server::cloud::service::validate_object_name(name);
+        let d = self.gate.before("put", name).await;
+        if d == GateDecision::FailBefore {
+            return Err(injected("put"));
+        }
+        let now = self.gate.now();
+        self.objects
+            .lock()
+            .unwrap()
+            .insert(name.to_string(), (value.to_vec(), now));
+        self.gate.after("put", name, true);
+        if d == GateDecision::FailAfter {
+            return Err(injected("put"));
+        }
+        Ok(())
+    }
+
+    async fn get(&mut self, name: &str) -> Result<Option<Vec<u8>>> {
+        crate::server::cloud::service::validate_object_name(name);
+        let d = self.gate.before("get", name).await;
+        if d != GateDecision::Proceed {
+            return Err(injected("get"));
+        }
+        let r = self
+            .objects
+            .lock()
+            .unwrap()
+            .get(name)
+            .map(|(v, _)| v.clone());
+        self.gate.after("get", name, true);
+        Ok(r)
+    }
+
+    async fn del(&mut self, name: &str) -> Result<()> {
+        crate::server::cloud::service::validate_object_name(name);
+        let d = self.gate.before("del", name).await;
+        if d == GateDecision::FailBefore {
+            return Err(injected("del"));
+        }
+        self.objects.lock().unwrap().remove(name);
+        self.gate.after("del", name, true);
+        if d == GateDecision::FailAfter {
+            return Err(injected("del"));
+        }
+        Ok(())
+    }
+
+    async fn list<'a>(&'a mut self, prefix: &'a str) -> Box<dyn AsyncObjectIterator + Send + 'a> {
+        let mut items: Vec<String> = self
+            .objects
+            .lock()
+            .unwrap()
+            .keys()
+            .filter(|k| k.starts_with(prefix))
+            .cloned()
+            .collect();
+        let page = self.gate.arrange_listing(&mut items).max(1);
+        Box::new(MemIter {
+            svc: self,
+            items,
+            pos: 0,
+            page,
+            prefix: prefix.to_string(),
+            failed: false,
+        })
+    }
+
+    async fn compare_and_swap(
+        &mut self,
+        name: &str,
+        existing_value: Option<Vec<u8>>,
+        new_value: Vec<u8>,
+    ) -> Result<bool> {
+        crate::server::cloud::service::validate_object_name(name);
+        let d = self.gate.before("cas", name).await;
+        if d == GateDecision::FailBefore {
+            return Err(injected("cas"));
+        }
+        let now = self.gate.now();
+        let changed = {
+            let mut o = self.objects.lock().unwrap();
+            let cur = o.get(name).map(|(v, _)| v.clone());
+            if cur == existing_value {
+                o.insert(name.to_string(), (new_value, now));
+                true
+            } else {
+                false
+            }
+        };
+        self.gate.after("cas", name, changed);
+        if d == GateDecision::FailAfter {
+            return Err(injected("cas"));
+        }
+        Ok(changed)
+    }
+}
+
+/// A derived key, to be shared between servers so that the (deliberately slow) key derivation is
+/// paid once.
+#[derive(Clone)]
+pub struct Key(Cryptor);
+
+impl Key {
+    pub fn derive(salt: &[u8], secret: &[u8]) -> Result<Key> {
+        Ok(Key(Cryptor::new(salt, &secret.to_vec().into())?))
+    }
+    /// The sealed form of `payload` for `version_id`.
+    pub fn seal(&self, version_id: VersionId, payload: Vec<u8>) -> Result<Vec<u8>> {
+        Ok(self
+            .0
+            .seal(Unsealed {
+                version_id,
+                payload,
+            })?
+            .into())
+    }
+    pub fn unseal(&self, version_id: VersionId, payload: Vec<u8>) -> Result<Vec<u8>> {
+        Ok(self
+            .0
+            .unseal(Sealed {
+                version_id,
+                payload,
+            })?
+            .into())
+    }
+}
+
+/// A [`CloudServer`] over the in-memory object store, with its internals reachable.
+pub struct VerifCloudServer(CloudServer<MemService>);
+
+impl VerifCloudServer {
+    /// The ordinary constructor: reads or creates the salt object and derives the key.
+    pub async fn new(objects: Objects, gate: Box<dyn Gate>, secret: Vec<u8>) -> Result<Self> {
+        Ok(Self(
+            CloudServer::new(MemService { objects, gate }, secret).await?,
+        ))
+    }
+
+    /// Skip key derivation by supplying an already derived key (the salt object is not touched).
+    pub fn with_key(objects: Objects, gate: Box<dyn Gate>, key: &Key) -> Self {
+        Self(CloudServer {
+            service: MemService { objects, gate },
+            cryptor: key.0.clone(),
+            cleanup_probability: DEFAULT_CLEANUP_PROBABILITY,
+        })
+    }
+
+    pub async fn cleanup(&mut self) -> Result<()> {
+        self.0.cleanup().await
+    }
+
+    pub fn set_cleanup_probability(&mut self, p: u8) {
+        self.0.cleanup_probability = p;
+    }
+}
+
+#[async_trait(?Send)]
+impl Server for VerifCloudServer {
+    async fn add_version(
+        &mut self,
+        parent_version_id: VersionId,
+        history_segment: HistorySegment,
+    ) -> Result<(AddVersionResult, SnapshotUrgency)> {
+        self.0.add_version(parent_version_id, history_segment).await
+    }
+    async fn get_child_version(
+        &mut self,
+        parent_version_id: VersionId,
+    ) -> Result<GetVersionResult> {
+        self.0.get_child_version(parent_version_id).await
+    }
+    async fn add_snapshot(&mut self, version_id: VersionId, snapshot: Snapshot) -> Result<()> {
+        self.0.add_snapshot(version_id, snapshot).await
+    }
+    async fn get_snapshot(&mut self) -> Result<Option<(VersionId, Snapshot)>> {
+        self.0.get_snapshot().await
+    }
+}
+
+type RandSource = Box<dyn FnMut() -> u8 + Send>;
+static RANDINT: Mutex<Option<RandSource>> = Mutex::new(None);
+
+/// Install (or remove) a deterministic source for the server's cleanup / urgency dice.
+pub fn set_randint_source(f: Option<RandSource>) {
+    *RANDINT.lock().unwrap() = f;
+}
+
+pub(super) fn next_randint() -> Option<u8> {
+    RANDINT.lock().unwrap().as_mut().map(|f| f())
+}
